@@ -67,6 +67,33 @@ def nearestResource (D : Doc) (l : List NodeId) : NodeId :=
 def Doc.ResourceRoot (D : Doc) (s r : NodeId) : Prop :=
   ∃ l, isLineage D.st D.root l s = true ∧ nearestResource D l = r
 
+/-! ### base URIs -/
+
+/-- the `$id` of a schema as a URI reference -/
+def idUrl (st : Store) (s : NodeId) : Uri.Url :=
+  match st.get? s with
+  | some n => (match Uri.parse n.id with
+    | .ok u => u
+    | _ => {})
+  | none => {}
+
+/-- the base URI in force at the end of a lineage (RFC 3986 §5.1): starting from the retrieval URI
+    of the document, resolve in turn the `$id` of every resource-establishing schema on the way,
+    the root included -/
+def baseUriAlong (D : Doc) (retrieval : Uri.Url) (l : List NodeId) : Uri.Url :=
+  ((D.root :: l).filter (startsResourceAt D.st D.draft)).foldl
+    (fun u r => Uri.resolveReference u (idUrl D.st r)) retrieval
+
+/-- `u` is the base URI of schema `s`: the URI of the schema resource it belongs to -/
+def Doc.BaseUri (D : Doc) (retrieval : Uri.Url) (s : NodeId) (u : Uri.Url) : Prop :=
+  ∃ l, isLineage D.st D.root l s = true ∧ baseUriAlong D retrieval l = u
+
+/-- the fragment-less URI `k` identifies the schema resource rooted at `r`: `r` is a resource root and
+    `k` is its URI; the document root is identified by the retrieval URI as well -/
+def Doc.Identifies (D : Doc) (retrieval : Uri.Url) (k : String) (r : NodeId) : Prop :=
+  (r = D.root ∧ k = Uri.toString retrieval) ∨
+  (D.ResourceRoot r r ∧ ∃ u, D.BaseUri retrieval r u ∧ k = Uri.toString u)
+
 /-! ### plain-name fragments -/
 
 /-- strings.TrimPrefix(s, "#") -/
@@ -100,6 +127,16 @@ def Doc.FragTarget (D : Doc) (r : NodeId) (frag : String) (t : NodeId) : Prop :=
   if frag = "" then t = r
   else if frag.toList.head? = some '/' then Pointer.dereference D.st true true r frag = .ok t
   else D.AnchorTarget r frag t
+
+/-! ### references -/
+
+/-- `$ref: ref` (or `$dynamicRef`, lexically) in schema `s` designates `t`: the reference is resolved
+    against the base URI of `s` (RFC 3986 §5.2); the URI without its fragment identifies a schema
+    resource of the document; the fragment selects a schema inside it -/
+def Doc.Designates (D : Doc) (retrieval : Uri.Url) (s : NodeId) (ref : String) (t : NodeId) : Prop :=
+  ∃ bu refURI r, D.BaseUri retrieval s bu ∧ Uri.parse ref = .ok refURI ∧
+    D.Identifies retrieval (Uri.toString (Uri.dropFragment (Uri.resolveReference bu refURI))) r ∧
+    D.FragTarget r (Uri.resolveReference bu refURI).fragment t
 
 end Spec
 end JSV
